@@ -82,7 +82,8 @@ Qed.
 (* the count returned by EngineData / EngineData2 .write(fp) is the number of bytes written: every tree, both layouts *)
 Theorem write_count_truthful ly d bs : write ly d = Ok bs -> write_count ly d = Zlen bs.
 Proof.
-  intros H. destruct ly; cbn [write] in H; inversion H; subst bs; cbn [write_count].
+  intros H. unfold write in H. destruct (wbig (TDict d)); [discriminate|].
+  destruct ly; inversion H; subst bs; cbn [write_count].
   - apply counts_all.
   - unfold wentries, centries. symmetry. apply Zlen_flat_map. apply Forall_forall. intros [k v] _.
     rewrite centry_eq, wentry_eq. rewrite !Zlen_app, Zlen_cons.
